@@ -35,6 +35,12 @@ def sub_hypergraphs(r, obj, exhaustive=True):
     fs = [("none", 0)] + [(m, z) for z in range(1, N + 2) for m in ("eq", "upto")]
     if not exhaustive:
         fs = rng.sample(fs, 3)
+    # a caller that lists the hyperedges of a selection first and uses up the list it was handed: the listing is the caller's
+    # own object, emptying it must not reach the hypergraph nor the sub-hypergraphs extracted afterwards
+    for f in fs:
+        lst, _ = _safe(lambda: obj.get_edges(**b._fkw(f)))
+        if type(lst) is list:
+            del lst[:]
     for f in fs:
         for keep in (False, True):
             kw = b._fkw(f)
